@@ -158,6 +158,8 @@ pub fn exec(a: &[&str]) -> String {
             let seg_s: Vec<String> = segs.iter().map(|s| s.join(";")).collect();
             format!("S{st}|{}|E:{}", seg_s.join("|"), hex_bytes(strip_all_loc(&err).as_bytes()))
         }
+        // mcase: a recorded case replayed through the model only in this tier (no CLI spawn)
+        "mcase" => "CLI-NOT-RUN-IN-THIS-TIER".into(),
         "case" => {
             let filter = String::from_utf8(parse_bytes(a[2])).expect("utf8");
             let input = parse_bytes(a[3]);
@@ -201,6 +203,9 @@ pub fn gen(tier: Tier, r: &mut Rng, emit: &mut dyn FnMut(String)) {
             }
             if n % step == 0 {
                 emit(line.to_string());
+            } else {
+                // the other recorded cases still validate the oracle on every run (driver only)
+                emit(line.replacen("C24 case ", "C24 mcase ", 1));
             }
             n += 1;
         }
@@ -210,7 +215,17 @@ pub fn gen(tier: Tier, r: &mut Rng, emit: &mut dyn FnMut(String)) {
 /// generated core-fragment programs x 3 inputs per CLI spawn
 fn gen_runs(tier: Tier, r: &mut Rng, emit: &mut dyn FnMut(String)) {
     use crate::c23::{gen_json, gen_program, gen_root, tame_big_numbers, Ty};
-    let n = if tier == Tier::Quick { 250 } else { 20_000 };
+    // order-sensitive programs on object families (one key set, permuted insertion orders)
+    for p in ["reverse | sort", "unique", "min", "[.[0] < .[1], .[1] < .[0]]"] {
+        emit(format!("C24 run {} {}", hex_bytes(p.as_bytes()), hex_bytes(crate::c23::FAMILY_FIXED.as_bytes())));
+    }
+    for _ in 0..(if tier == Tier::Quick { 40 } else { 4_000 }) {
+        let p = *r.pick(crate::c23::ORDER_PROGS);
+        let inputs: Vec<String> = (0..3).map(|_| hex_bytes(crate::c23::gen_family(r).as_bytes())).collect();
+        emit(format!("C24 run {} {}", hex_bytes(p.as_bytes()), inputs.join(",")));
+    }
+    let n = if tier == Tier::Quick { 250 } else { 40_000 };
+    let per_spawn = if tier == Tier::Quick { 3 } else { 5 };
     for i in 0..n {
         let depth = 1 + (i % 4) as u32;
         let typed = r.chance(4, 5);
@@ -218,7 +233,7 @@ fn gen_runs(tier: Tier, r: &mut Rng, emit: &mut dyn FnMut(String)) {
         if prog.contains("halt") || prog.contains("debug") || prog.contains("input") || prog.contains("env") || prog.contains("now") {
             continue;
         }
-        let inputs: Vec<String> = (0..3)
+        let inputs: Vec<String> = (0..per_spawn)
             .map(|_| {
                 let raw = if typed { gen_root(r) } else { gen_json(r, 3) };
                 // jq numbers are doubles: keep the inputs inside the range where succinctly's exact
